@@ -1042,7 +1042,11 @@ class IASolverBaseClass:  # pylint: disable=R0902
             aux = np.dot(Ukl_H, np.dot(Hkk, Vkl))
             numerator = np.dot(aux, aux.transpose().conjugate())
             denominator = np.dot(Ukl_H, np.dot(Bkl_all_l[l], Ukl))
-            SINR_kl = numerator.item() / denominator.item()
+            # Without noise and with perfectly cancelled interference the
+            # denominator is exactly zero: the SINR is then infinity (numpy
+            # scalars follow IEEE rules instead of raising an exception)
+            with np.errstate(divide='ignore', invalid='ignore'):
+                SINR_kl = numerator[0, 0] / denominator[0, 0]
             # The imaginary part should be negligible
             SINR_k[l] = np.abs(SINR_kl)
 
